@@ -13,18 +13,42 @@ import (
 )
 
 type (
-	Options      = pebble.Options
-	IterOptions  = pebble.IterOptions
-	WriteOptions = pebble.WriteOptions
-	Cache        = pebble.Cache
-	Metrics      = pebble.Metrics
+	Options            = pebble.Options
+	IterOptions        = pebble.IterOptions
+	WriteOptions       = pebble.WriteOptions
+	Cache              = pebble.Cache
+	Metrics            = pebble.Metrics
+	Logger             = pebble.Logger
+	Comparer           = pebble.Comparer
+	KeyRange           = pebble.KeyRange
+	LevelOptions       = pebble.LevelOptions
+	EventListener      = pebble.EventListener
+	CheckpointOption   = pebble.CheckpointOption
+	FormatMajorVersion = pebble.FormatMajorVersion
+	IterKeyType        = pebble.IterKeyType
+	IterValidityState  = pebble.IterValidityState
 )
 
 var (
-	Sync        = pebble.Sync
-	NoSync      = pebble.NoSync
-	ErrNotFound = pebble.ErrNotFound
-	ErrClosed   = pebble.ErrClosed
+	Sync                 = pebble.Sync
+	NoSync               = pebble.NoSync
+	ErrNotFound          = pebble.ErrNotFound
+	ErrClosed            = pebble.ErrClosed
+	ErrReadOnly          = pebble.ErrReadOnly
+	ErrCorruption        = pebble.ErrCorruption
+	ErrDBDoesNotExist    = pebble.ErrDBDoesNotExist
+	ErrDBAlreadyExists   = pebble.ErrDBAlreadyExists
+	ErrDBNotPristine     = pebble.ErrDBNotPristine
+	ErrBatchTooLarge     = pebble.ErrBatchTooLarge
+	ErrInvalidBatch      = pebble.ErrInvalidBatch
+	ErrNotIndexed        = pebble.ErrNotIndexed
+	ErrSnapshotExcised   = pebble.ErrSnapshotExcised
+	DefaultLogger        = pebble.DefaultLogger
+	DefaultComparer      = pebble.DefaultComparer
+	WithFlushedWAL       = pebble.WithFlushedWAL
+	IsCorruptionError    = pebble.IsCorruptionError
+	FormatNewest         = pebble.FormatNewest
+	FormatMostCompatible = pebble.FormatMostCompatible
 )
 
 // Reader is pebble.Reader over the instrumented types: what the live database and a snapshot of it
@@ -105,9 +129,66 @@ func (d *DB) NewIterWithContext(ctx context.Context, o *pebble.IterOptions) (*It
 	return &Iterator{it}, nil
 }
 
+// The remaining ways to change the live database: each is one commit (a scheduling point before,
+// the commit hook after), like Set and Delete.
+func (d *DB) commitOp(what string, f func() error) error {
+	vrt.Yield("DB." + what)
+	err := f()
+	if err == nil && OnCommit != nil {
+		OnCommit(d.DB, what)
+	}
+	return err
+}
+
+func (d *DB) DeleteRange(start, end []byte, o *pebble.WriteOptions) error {
+	return d.commitOp("DeleteRange", func() error { return d.DB.DeleteRange(start, end, o) })
+}
+
+func (d *DB) SingleDelete(key []byte, o *pebble.WriteOptions) error {
+	return d.commitOp("SingleDelete", func() error { return d.DB.SingleDelete(key, o) })
+}
+
+func (d *DB) Merge(key, value []byte, o *pebble.WriteOptions) error {
+	return d.commitOp("Merge", func() error { return d.DB.Merge(key, value, o) })
+}
+
+// Apply commits a batch through the database (the same thing as batch.Commit).
+func (d *DB) Apply(b *Batch, o *pebble.WriteOptions) error {
+	return d.commitOp("Apply", func() error { return d.DB.Apply(b.Batch, o) })
+}
+
+func (d *DB) NewIndexedBatch() *Batch { return &Batch{Batch: d.DB.NewIndexedBatch(), db: d.DB} }
+
+// Writer is pebble.Writer over the instrumented types (the live database or a batch).
+type Writer interface {
+	Set(key, value []byte, o *pebble.WriteOptions) error
+	Delete(key []byte, o *pebble.WriteOptions) error
+	DeleteRange(start, end []byte, o *pebble.WriteOptions) error
+	SingleDelete(key []byte, o *pebble.WriteOptions) error
+	Merge(key, value []byte, o *pebble.WriteOptions) error
+}
+
+var (
+	_ Writer = (*DB)(nil)
+	_ Writer = (*Batch)(nil)
+)
+
 type Batch struct {
 	*pebble.Batch
 	db *pebble.DB
+}
+
+// Apply adds the operations of another batch to this one (nothing is committed).
+func (b *Batch) Apply(o *Batch, w *pebble.WriteOptions) error { return b.Batch.Apply(o.Batch, w) }
+
+// NewIter reads the batch (an indexed batch shows its own pending writes over the database).
+func (b *Batch) NewIter(o *pebble.IterOptions) (*Iterator, error) {
+	vrt.Yield("Batch.NewIter")
+	it, err := b.Batch.NewIter(o)
+	if err != nil {
+		return nil, err
+	}
+	return &Iterator{it}, nil
 }
 
 func (b *Batch) Commit(o *pebble.WriteOptions) error {
